@@ -151,3 +151,13 @@ check("C09", "exploration",
       "prefix, spanned characters without leading/trailing blank (also after latent anchoring); fillers count only when the "
       "match monitor saw no pattern match touch them, otherwise the case is excluded and counted.",
       _D, "paired executions + RegexMatch event monitor deciding inertness; value/span metamorphic oracle", "DESIGN.md 3/C09")
+
+check("C10", "exploration",
+      "Four executions per text (full, without hashtags, without the expression, without both) over thousands of texts "
+      "assembled from words, valid hashtags and a time expression in random order with the library's separators: labels == "
+      "hashtags put in (all runs), no hashtag in a subject, hashtags change neither resolution nor subject, subject is an "
+      "ordered sub-sequence of the input words that keeps every word the match monitor observed inert and drops every word "
+      "wholly inside a match in the provenance of the result (provenance from rule-application events), and the no-match "
+      "path agrees when the expression is fully consumed.",
+      _D + "; words neither observed inert nor in the provenance of the result are unconstrained",
+      "API recorder + provenance from rule-application events + match-event inertness; partition and metamorphic oracles", "DESIGN.md 3/C10")
